@@ -36,19 +36,17 @@ def clause_a(ctx, P):
     gates = calls_to(fn, "DnsRegistry::is_probing_done")
     e_noprobe = guard_edges(P, fn, lambda atom, outcome, bb: atom[0] == "call" and name_matches(strip_generics(atom[1]), "ServiceInfo::requires_probe") and outcome is False)
     n = 0
+    sites = {s.bb: s for s in f4.builder_sites(P) if s.fn is fn}      # constructors and calls of record factories
     for (b, t) in adds:
         rec = tr.operand(t["args"][1], endpos(fn, b))
-        ctor = [x for x in strip(rec) if x[0] == "call" and strip_generics(x[1]) in f4.CTORS]
+        ctor = [x for x in strip(rec) if x[0] == "call" and x[3][0] == fn.name and x[3][1] in sites]
         if not ctor:
             ctx.ob("C07a.anchor", "%s|add_answer_at_time" % fn.name, False, fn.loc(b), "cannot identify the record added: " + show(rec)[:80])
             continue
         c = ctor[0]
-        kind = f4.CTORS[strip_generics(c[1])]
-        cls = None
-        callee = P.fns[strip_generics(c[1])]
-        for l in range(1, callee.argc + 1):
-            if callee.locals[l].get("name") == "class":
-                cls = fold(c[2][l - 1])
+        site = sites[c[3][1]]
+        kind = site.kind
+        cls = fold(site.args["class"]) if "class" in site.args else None
         unique = cls is not None and (cls & 0x8000) != 0
         if not unique:
             continue
